@@ -25,6 +25,10 @@
    THE INITIAL STATE: a line outside blocks that mentions <<<STATE_0>>> / <<<state_0>>> (InitLine) is part of the syntax: the first
    stage, filterInitialState, rewrites exactly these lines (first row's start state, as it is / lowerCamelCase), every later stage
    and phase leaves the result alone; covered by C16_engine_is_ref(_table) (el_first of the element record = getfirststate).
+   THE BOOST::SML TABLE: a line  pre <<<TTT_BOOST_SML>>>  /  pre <<<TTT_BOOST_SML_ENTRY_EXIT>>>  (TableLine) is part of the syntax: its
+   single-tag stage replaces it by what smgen.innerexpand_sml prints (Model/EngineSM.sml_print, with pre as indentation); the
+   reference is that printer, whose text is characterised in Props/C09.v (C09_engine_text: header line + the text of gen_sml's
+   items).  The other table printers (PLANT_UML, MSM, MSMLITE) stay unmodelled: a template that reaches them is outside.
    STILL PARTIAL: signature / member / documentation / attribute tags are not modelled; the shipped TEMPLATEStateMachine.py /
    TEMPLATEInternals.cs as whole files are outside the grammar for that reason.  block_wf keeps three
    conditions that are evaluated per (template, table): substituted names carry no '<' '>', no expanded copy is whitespace
